@@ -401,8 +401,10 @@ pub fn run_cred(ctx: &mut Ctx) {
             // written by the library itself under these credentials (whatever key it derives from them)
             let db = Database::new(DatabaseConfig { kdf_config: KdfConfig::Aes { rounds: 3 }, ..Default::default() });
             let mut buf = Vec::new();
-            db.save(&mut buf, make_key(&creds.pw, &creds.kf)).unwrap();
-            buf
+            match catch(|| db.save(&mut buf, make_key(&creds.pw, &creds.kf))) {
+                Ok(Ok(())) => buf,
+                _ => kdbx::build_kdbx4(&spec, &layout, &comp).unwrap(), // save refused these credentials (C20's concern): use the builder
+            }
         } else {
             kdbx::build_kdbx4(&spec, &layout, &comp).unwrap()
         };
